@@ -3,6 +3,9 @@
 #define VP_WITH_IO
 #include "fingerprint.h"
 #include "vpstream.h"
+#ifndef C19_BUF_STEPS
+#define C19_BUF_STEPS 4
+#endif
 #ifndef C19_REPS
 #define C19_REPS 2
 #endif
@@ -157,6 +160,28 @@ extern "C" void h_refused_first(void) {
       if (what == 0) (void)vp_outcome([&] { (void)lx.get_product(gap); });
       else if (what == 1) (void)vp_outcome([&] { (void)lx.get_sum(gap); });
       else (void)vp_outcome([&] { (void)lx.get_qualified(ipr::Qualifiers{ }, lx.int_type()); });
+   }
+   vp_leakcheck();
+   vp_done();
+}
+
+// words presented from short-lived client buffers: every spelling is handed to the Lexicon in a heap buffer that dies right after the
+// request; later requests (same word again, other words of the same or another length, symbolic order) must not read the dead buffers
+extern "C" void h_dead_buffers(void) {
+   vp_mark();
+   {
+      impl::Lexicon lx;
+      static const char* const words[4] = { "abc", "xyz", "abcd", "qrs" };
+      const ipr::String* first[4] = { nullptr, nullptr, nullptr, nullptr };
+      for (int step = 0; step < C19_BUF_STEPS; ++step) {
+         unsigned k = vp_pick(4); bool ident = vp_flag();
+         std::size_t n = std::strlen(words[k]);
+         char8_t* buf = new char8_t[n]; for (std::size_t i = 0; i < n; ++i) buf[i] = static_cast<char8_t>(words[k][i]);
+         const ipr::String& s = ident ? lx.get_identifier(ipr::util::word_view(buf, n)).string() : lx.get_string(ipr::util::word_view(buf, n));
+         delete[] buf;
+         if (first[k] == nullptr) first[k] = &s;
+         vp_assert(first[k] == &s && s.size() == n, 60);
+      }
    }
    vp_leakcheck();
    vp_done();
